@@ -79,6 +79,23 @@ LimReenterM(kind, L) ==
          St(LimAction(kind, L), Ctr("dec"), NoCtr,
             [CounterZero |-> Always(3), PaddingSent |-> Always(2), NormalSent |-> Always(1)]),
          St(NoAction, NoCtr, Ctr("dec"), [CounterZero |-> Always(2), NormalSent |-> Always(1)])>>)
+\* the same round trip (counter A reaches zero on entering the action state, counter B in the
+\* intermediate state, CounterZero leads back) with budgets in force: the verdict on the
+\* re-entered stay has to consult the budgets again, not only the fresh state limit.
+\* e1 arms the counters, e2 enters the action state.
+BudgetReenterM(kind, L, e1, e2, pb, pf, bb, bf) ==
+  Mach(pb, pf, bb, bf,
+       <<St(NoAction, NoCtr, NoCtr, e1 :> Always(1)),
+         St(NoAction, Ctr("inc"), Ctr("inc"), e2 :> Always(2) @@ e1 :> Always(1)),
+         St(LimAction(kind, L), Ctr("dec"), NoCtr,
+            "CounterZero" :> Always(3) @@ "PaddingSent" :> Always(2) @@ e1 :> Always(1)),
+         St(NoAction, NoCtr, Ctr("dec"), "CounterZero" :> Always(2) @@ e1 :> Always(1))>>)
+PadReenterConfs ==
+  {Cf(<<BudgetReenterM("pad", L, "NormalSent", "NormalRecv", b, f, 0, Unset)>>, fw, Unset) :
+     L \in {NoDist, Const(2)}, b \in {0, 1}, f \in {Unset, Half}, fw \in {Unset, Half}}
+BlockReenterConfs ==
+  {Cf(<<BudgetReenterM("block", L, "BlockingBegin", "BlockingEnd", 0, Unset, b, f)>>, Unset, fw) :
+     L \in {NoDist, Const(2)}, b \in {0, 2}, f \in {Unset, Half}, fw \in {Unset, Half}}
 \* a neighbour that changes state on every completion kind (and back on the matching end / next event)
 Follower ==
   Mach(0, Unset, 0, Unset,
@@ -243,6 +260,8 @@ FamilyConfs(id) ==
     [] id = "pad-thorough" -> PadConfs({0, 1, 2}, {Unset, Quarter, Half, One}, {Unset, Quarter, Half, One})
     [] id = "block-quick"  -> BlockConfs({0, 2}, {Unset, Half}, {Unset, Half})
     [] id = "block-thorough" -> BlockConfs2({0, 2}, {Unset, Quarter, One}, {Unset, Half})
+    [] id = "pad-reenter"  -> PadReenterConfs
+    [] id = "block-reenter" -> BlockReenterConfs
     [] id = "limit-quick"  -> LimConfs({Const(0), Const(1), Const(2)})
     [] id = "limit-reenter" -> {Cf(<<LimReenterM(k, OneOf({0, 2}))>>, Unset, Unset) : k \in LimKinds}
                                \cup {Cf(<<LimReenterM("pad", Const(1))>>, Unset, Unset)}
